@@ -33,6 +33,8 @@ type WorldCfg struct {
 	TwoEDS     bool           // a second EDS (other namespace, same name) shares the cluster
 	Migration  bool           // maybe start from an old DaemonSet with pods
 	PlainNodes bool           // nodes without taints and with full labels (every template letter fits somewhere)
+	Warmup     int            // up to this many fair rounds before the generated steps (first deployment under way)
+	StartEdit  int            // 0 never, 1 maybe, 2 always: after the warm-up edit the template and let the EDS see it
 }
 
 // World is one generated history in progress.
@@ -58,12 +60,15 @@ type World struct {
 	Cmds           int
 	LettersSeen    []byte
 	FaultsInjected int
+	Facts          map[string]int
+	CloseSyncs     int // replica-set syncs requested less than reconcileFrequency after the previous one
+	lastSyncAt     map[string]time.Time
 }
 
 func newWorld(rt *rapid.T, rec *evid.Rec, cfg WorldCfg) *World {
 	aff := cfg.Affinity == 1 || (cfg.Affinity == 2 && rapid.Bool().Draw(rt, "affinityMode"))
 	mode := edsv1.ExtendedDaemonSetSpecStrategyCanaryValidationModeAuto
-	w := &World{rt: rt, rec: rec, cfg: cfg, H: mon.NewHistory(), RSSeen: map[string]bool{}, RolesSynced: map[string]bool{}}
+	w := &World{rt: rt, rec: rec, cfg: cfg, H: mon.NewHistory(), RSSeen: map[string]bool{}, RolesSynced: map[string]bool{}, Facts: map[string]int{}, lastSyncAt: map[string]time.Time{}}
 	w.C = sim.New(sim.Options{AffinityMode: aff, DefaultValidationMode: mode})
 	n := rapid.IntRange(cfg.MinNodes, cfg.MaxNodes).Draw(rt, "nNodes")
 	for i := 0; i < n; i++ {
@@ -80,6 +85,18 @@ func newWorld(rt *rapid.T, rec *evid.Rec, cfg WorldCfg) *World {
 			ns, name = "ns1", "bar"
 		}
 		w.addEDS(ns, name, other, gen.ConvergentStrategy(rt, cfg.Strategy))
+	}
+	if cfg.Warmup > 0 {
+		n := rapid.IntRange(0, cfg.Warmup).Draw(rt, "warmupRounds")
+		for i := 0; i < n; i++ {
+			w.fairRound(fmt.Sprintf("warm-up %d", i+1))
+		}
+		if n > 0 && (cfg.StartEdit == 2 || (cfg.StartEdit == 1 && rapid.Bool().Draw(rt, "startEdit"))) {
+			e := w.EDS[0]
+			w.editTemplate(e, cfg.Letters[rapid.IntRange(0, len(cfg.Letters)-1).Draw(rt, "startLetter")])
+			w.reconcile(sim.ActorEDS, e.Namespace, e.Name)
+			w.reconcile(sim.ActorEDS, e.Namespace, e.Name)
+		}
 	}
 	return w
 }
@@ -158,17 +175,17 @@ func renderStrategy(s *edsv1.ExtendedDaemonSetSpecStrategy) string {
 	return strings.TrimSpace(b.String())
 }
 
-// fail records the violations and stops the case.
+// fail records the violations and stops the case unless all of them are listed known findings.
 func (w *World) fail(vs []mon.V) {
-	for _, v := range vs {
-		w.rec.Violation(v.Monitor, v.Sig, v.Detail, map[string]interface{}{"trace": append([]string(nil), w.C.Trace...)}, len(w.C.Trace))
-	}
-	w.rt.Fatalf("%s\n--- trace ---\n%s", vs[0].String(), strings.Join(w.C.Trace, "\n"))
+	settle(w.rt, w.rec, vs, map[string]interface{}{"trace": append([]string(nil), w.C.Trace...)}, len(w.C.Trace), "--- trace ---\n"+strings.Join(w.C.Trace, "\n"))
 }
 
 // check runs the monitors over one record.
 func (w *World) check(r *sim.Record, h *mon.History) {
 	w.rec.Steps(1)
+	for _, f := range mon.Facts(r) {
+		w.Facts[f]++
+	}
 	if vs := mon.Check(r, w.cfg.Monitors, h); len(vs) > 0 {
 		w.C.Tracef("MONITOR %s", vs[0].Sig)
 		w.fail(vs)
@@ -197,6 +214,15 @@ func (w *World) reconcile(actor, ns, name string) *sim.Record {
 				w.fail(vs)
 			}
 		}
+	}
+	if actor == sim.ActorERS {
+		key := ns + "/" + name
+		if e := w.C.EDS(ns, "foo"); e != nil && e.Spec.Strategy.ReconcileFrequency != nil {
+			if last, ok := w.lastSyncAt[key]; ok && w.C.Now().Sub(last) < e.Spec.Strategy.ReconcileFrequency.Duration {
+				w.CloseSyncs++
+			}
+		}
+		w.lastSyncAt[key] = w.C.Now()
 	}
 	r := w.C.Reconcile(actor, ns, name)
 	if actor == sim.ActorERS && r.Pre != nil {
@@ -364,6 +390,22 @@ func (w *World) do(kind string) {
 		if p := w.pickPod(); p != nil {
 			w.C.MarkUnschedulable(p.Namespace, p.Name)
 		}
+	case "pod-dup":
+		// a second pod for a node, as a lagging cache or a racing controller instance would leave behind
+		if p := w.pickPod(); p != nil && p.Labels[oracle.LabelEDSName] != "" {
+			q := p.DeepCopy()
+			q.Name = fmt.Sprintf("%s-dup%d", p.Labels[oracle.LabelRSName], len(w.C.Trace))
+			q.UID, q.ResourceVersion, q.DeletionTimestamp, q.DeletionGracePeriodSeconds, q.Finalizers = "", "", nil, nil, nil
+			q.CreationTimestamp = metav1.NewTime(w.C.Now().Add(-time.Duration(rapid.IntRange(0, 2).Draw(w.rt, "dupAge")) * time.Hour).Truncate(time.Second))
+			if node := oracle.NodeOf(p); node != "" && rapid.Bool().Draw(w.rt, "dupUnscheduled") {
+				q.Spec.NodeName = ""
+				q.Spec.Affinity = &corev1.Affinity{NodeAffinity: &corev1.NodeAffinity{RequiredDuringSchedulingIgnoredDuringExecution: &corev1.NodeSelector{NodeSelectorTerms: []corev1.NodeSelectorTerm{{MatchFields: []corev1.NodeSelectorRequirement{{Key: "metadata.name", Operator: corev1.NodeSelectorOpIn, Values: []string{node}}}}}}}}
+				q.Status = corev1.PodStatus{Phase: corev1.PodPending}
+			}
+			w.PodFaults++
+			w.C.Tracef("pod duplicate %s of %s (node %s, created %s, scheduled=%v)", q.Name, p.Name, oracle.NodeOf(q), q.CreationTimestamp.Format("15:04:05"), q.Spec.NodeName != "")
+			w.C.Add(q)
+		}
 	case "pod-userdelete":
 		if p := w.pickPod(); p != nil {
 			w.C.UserDeletePod(p.Namespace, p.Name)
@@ -378,6 +420,15 @@ func (w *World) do(kind string) {
 		val := rapid.SampledFrom([]string{"true", "true", "false", "-", "yes"}).Draw(w.rt, "annVal")
 		w.AnnotFlips++
 		_ = w.C.SetEDSAnnotation(e.Namespace, e.Name, key, val)
+	case "canary-valid":
+		e := w.pickEDS()
+		if x := w.C.EDS(e.Namespace, e.Name); x != nil && x.Status.Canary != nil {
+			val := x.Status.Canary.ReplicaSet
+			if rapid.IntRange(0, 3).Draw(w.rt, "validOther") == 0 {
+				val = x.Status.ActiveReplicaSet
+			}
+			_ = w.C.SetEDSAnnotation(e.Namespace, e.Name, oracle.AnnCanaryValid, val)
+		}
 	case "node-add":
 		if len(w.C.Nodes()) < w.cfg.MaxNodes+2 {
 			w.NodeChurn++
